@@ -2,7 +2,7 @@
    mode flags sharing one cache directory) every answer equals the mode-independent specification. *)
 From Coq Require Import ZArith List Bool Lia Permutation Sorting.Sorted.
 Import ListNotations.
-From SCMO Require Import Lib.Val Model.C18 Proofs.C18_a Proofs.C18_b Proofs.C18_c Proofs.C18_d.
+From SCMO Require Import Lib.Val Gen.GenAlleles Model.C18 Proofs.C18_s Proofs.C18_a Proofs.C18_b Proofs.C18_c Proofs.C18_d.
 Open Scope Z_scope.
 
 Lemma spec_answer_scope v cf q : in_scope cf (query_contig q) = true -> spec_answer v cf q = site_answer v cf q.
@@ -77,6 +77,16 @@ Section Refine.
       + apply Hfs.
   Qed.
 
+  Lemma fetch_raises_has cf st c p : 0 <= p -> fetch_raises v cf st c = true ->
+    answer_has (fst (ensure v cf st c)) c p = ABool false.
+  Proof.
+    intros Hp. unfold fetch_raises, ensure.
+    destruct (self_lazy cf && negb (amem seqb (fst st) c)); [|discriminate]. cbn [andb]. unfold fetch_lazy.
+    destruct (if c_cache cf && cacheable c then aget seqb (snd st) (cache_name cf c) else None); [discriminate|].
+    intros H. apply negb_true_iff in H. cbn [fst]. unfold contig_table. rewrite H.
+    unfold answer_has. rewrite add_sentinel_lookup by exact Hp. reflexivity.
+  Qed.
+
   Lemma step_lazy cf st q : is_lazy cf = true -> st_ok cf st -> In (cf, query_contig q) ks -> 0 <= query_pos q ->
     st_ok cf (fst (step v cf st q)) /\ snd (step v cf st q) = spec_answer v cf q.
   Proof.
@@ -84,14 +94,18 @@ Section Refine.
     rewrite spec_answer_scope by (unfold in_scope; rewrite Hl; reflexivity).
     assert (He : st_ok cf (ensure v cf st (query_contig q)) /\
                  good_ct cf (query_contig q) (getd seqb (fst (ensure v cf st (query_contig q))) (query_contig q))).
-    { unfold ensure. rewrite Hl. cbn [andb]. destruct (amem seqb (fst st) (query_contig q)) eqn:M; cbn [negb].
+    { unfold ensure. rewrite self_lazy_shape, Hl. cbn [andb]. destruct (amem seqb (fst st) (query_contig q)) eqn:M; cbn [negb].
       - split; [split; assumption|apply Ht, M].
       - destruct (fetch_lazy_ok cf (snd st) (query_contig q) Hfs Hk) as (A & B & C).
         split; [|exact C]. split; [exact A|]. intros c Hm. rewrite (B c Hm). exact C. }
     destruct He as [Hst Hg].
     destruct q as [c p b|c p]; cbn [step fst snd query_contig query_pos] in *.
     - split; [exact Hst|]. rewrite answer_get_ct. apply good_ct_get; assumption.
-    - split; [exact Hst|]. rewrite answer_has_ct. apply good_ct_has; assumption.
+    - split; [exact Hst|].
+      assert (Hn : answer_has (fst (ensure v cf st c)) c p = site_answer v cf (QHas c p))
+        by (rewrite answer_has_ct; apply good_ct_has; assumption).
+      destruct (fetch_raises v cf st c) eqn:R; [|exact Hn].
+      rewrite has_invalid_contig_shape, <- Hn. symmetry. apply fetch_raises_has; assumption.
   Qed.
 
   Lemma run_queries_lazy cf qs : is_lazy cf = true ->
@@ -111,7 +125,7 @@ Section Refine.
   (* ---- eager: the table never changes *)
   Lemma step_eager cf t fs q : is_lazy cf = false ->
     step v cf (t, fs) q = ((t, fs), match q with QGet c p b => answer_get t c p b | QHas c p => answer_has t c p end).
-  Proof. intros Hl. destruct q; cbn [step]; unfold ensure; rewrite Hl; reflexivity. Qed.
+  Proof. intros Hl. destruct q; cbn [step]; unfold ensure, fetch_raises; rewrite self_lazy_shape, Hl; reflexivity. Qed.
 
   Lemma eager_answers cf t : is_lazy cf = false -> init_table v cf = Some t ->
     forall q, 0 <= query_pos q ->
